@@ -15,14 +15,15 @@ LEVEL = "fault_enumeration"
 RULE = ("baseline dilation scenarios (dilate at a random point, subchannel traffic, 0-2 cuts of the "
         "selected link so that FLUSHING/LONELY/ABANDONING/CONNECTING-again occur, an optional silent "
         "stranger connected to the dilation listener) re-executed with close() inserted before step k on "
-        "either side (k swept over the whole baseline); peers with and without dilation=True; connect() "
+        "either side (k swept over the whole baseline), also right after a 0.1-3 MB write so that the L2 "
+        "transport still holds unsent data and has paused its producer; peers with and without dilation=True; connect() "
         "and when_dilated() issued before and after the peer's versions arrive. Oracle: close fires with "
         "a normal verdict; afterwards the closing side owns no listener, no pending connect, no live L2 "
         "connection, no timer. Non-trivial = close was issued while a Manager existed; distinct = "
         "(Manager state, Connector state, closer, role, scenario) at the moment of close.")
 ASSUMPTIONS = ["Noise stand-in", "bounded progress: 300 virtual seconds after close()"]
-FLOORS = {"quick": {"closes_with_manager": 500, "old_peer_cases": 40},
-          "thorough": {"closes_with_manager": 20000, "old_peer_cases": 1500}}
+FLOORS = {"quick": {"closes_with_manager": 500, "old_peer_cases": 40, "closes_after_bulk_write": 40},
+          "thorough": {"closes_with_manager": 20000, "old_peer_cases": 1500, "closes_after_bulk_write": 2000}}
 
 
 def cases(tier, seed, prep=None):
@@ -33,6 +34,12 @@ def cases(tier, seed, prep=None):
         for who in "AB":
             for k in range(0, 520, 7 if q else 1):
                 out.append({"kind": "sweep", "seed": b + base, "close_at": k, "who": who, "stranger": base % 2 == 1, "dead_addr": base % 4 < 2})
+    # close() right after a large write: the L2 transport still holds unsent data and has paused Outbound
+    for base in (range(2) if q else range(20)):
+        for who in "AB":
+            for k in range(150, 520, 12 if q else 2):
+                out.append({"kind": "sweep", "seed": b + 100 + base, "close_at": k, "who": who, "stranger": False, "dead_addr": False,
+                            "bulk": [100000, 300000, 1000000, 3000000][(k // 2) % 4]})
     for i in range(60 if q else 2000):
         out.append({"kind": "oldpeer", "seed": b + 5000 + i})
     return out
@@ -74,7 +81,8 @@ def run_case(spec):
     dp = DilatedPair(world, ping_interval=5.0, dilate_now=False, relay=False)
     gates = {n: rng.choice(["now", "key", "versions"]) for n in "AB"}
     started = {"A": False, "B": False}
-    drv = ScriptDriver(dp, rng, names=("p0",), max_opens=2, max_writes=10, sizes=(1, 100, 5000), late_listen=0.0, close_prob=0.3)
+    drv = ScriptDriver(dp, rng, names=("p0",), max_opens=2, max_writes=10, sizes=(1, 100, 5000), late_listen=0.0,
+                       close_prob=0.0 if spec.get("bulk") else 0.3)
     drv.pending_listen = {"A": [], "B": []}
     drv.factories = {"A": {}, "B": {}}
     drv.budget["open"] = {"A": 0, "B": 0}
@@ -91,7 +99,7 @@ def run_case(spec):
                         started[n] = True
                         dp.dilate(n)
                         drv.listen(n, "p0")
-                        drv.budget["open"][n] = rng.randint(0, 2)
+                        drv.budget["open"][n] = rng.randint(0, 2) if not spec.get("bulk") else 2
                     acts.append((("app", n, "dilate"), go))
         if all(started.values()):
             acts += [a for a in base_actions() if a[0][1] not in closing]
@@ -104,7 +112,8 @@ def run_case(spec):
         def cut():
             link = dp.selected_link()
             if link is not None:
-                how = rng.choice(["both", "blackhole"])
+                # (with unsent bulk data a blackholed link ends only when TCP gives up, which SimNet does not model)
+                how = rng.choice(["both", "blackhole"]) if not spec.get("bulk") else "both"
                 if how == "both":
                     r.cut(link)
                 else:
@@ -136,6 +145,11 @@ def run_case(spec):
         info["role"] = str(dp.role(who))
         info["step"] = world.step
         closing.add(who)
+        if spec.get("bulk"):
+            live = [p for p in drv.protos(who) if drv.is_open(p)]
+            if live:
+                info["bulk_written"] = spec["bulk"]
+                drv.write(live[0], b"bulk:" + rng.randbytes(spec["bulk"]))
         dp.apps[who].close()
     sch.faults.append((spec["close_at"], do_close, "close " + who))
     sch.faults.sort(key=lambda f: f[0])
@@ -197,7 +211,7 @@ def run_case(spec):
     had_manager = info.get("manager_state") is not None
     nontrivial = [info.get("manager_state"), info.get("connector_state"), who, info.get("role"), bool(spec.get("stranger")), spec["seed"]] if had_manager else None
     return {"violations": viol, "nontrivial": nontrivial,
-            "counters": {"closes_with_manager": int(had_manager), "closed": int(app.closed), "stranger_connected": int(stranger["proto"] is not None),
+            "counters": {"closes_with_manager": int(had_manager), "closes_after_bulk_write": int(bool(info.get("bulk_written"))), "closed": int(app.closed), "stranger_connected": int(stranger["proto"] is not None),
                          "notrans_seen": len(MON.notrans)},
             "sets": {"states_at_close": ["%s/%s" % (info.get("manager_state"), info.get("connector_state"))],
                      "dilation_notrans": ["%s.%s/%s" % k for k in set(MON.notrans)],
